@@ -266,6 +266,12 @@ Section Gen.
         K"union<" ++ join (K", ") types' ++ K">"
     end.
 
+  Definition seq_str (name : str) (types : list str) : str :=
+    match types with [] => name ++ K"<Any>" | _ => name ++ K"<" ++ join (K", ") types ++ K">" end.
+
+  Definition numbered_names (prefix : string) (xs : list str) : list str :=
+    map (fun it : nat * str => conv (K prefix ++ nat_dec (S (fst it))) ++ K": " ++ snd it) (numbered 0 xs).
+
   Definition seq_finish (name : str) (types : list str) : M str :=
     match types with
     | [] => ret (name ++ K"<Any>")
@@ -294,11 +300,11 @@ Section Gen.
     | TFinal t' => type_string t'
     | TCallable ps r =>
       mdo pstrs <- mmap type_string ps;
-      let params := map (fun it : nat * str => conv (K"param_" ++ nat_dec (S (fst it))) ++ K": " ++ snd it) (numbered 0 pstrs) in
+      let params := numbered_names "param_" pstrs in
       match r with
       | TTuple rs =>
         mdo rstrs <- mmap type_string rs;
-        let rets := map (fun it : nat * str => conv (K"result_" ++ nat_dec (S (fst it))) ++ K": " ++ snd it) (numbered 0 rstrs) in
+        let rets := numbered_names "result_" rstrs in
         ret (K"(" ++ join (K", ") params ++ K") -> (" ++ join (K", ") rets ++ K")")
       | TNamed rn _ =>
         if str_eqb rn (K"None") then ret (K"(" ++ join (K", ") params ++ K") -> ()")
@@ -354,6 +360,56 @@ Section Gen.
     | TLiteral ls => ret (K"literal<" ++ join (K", ") (map render_lit ls) ++ K">")
     | TTypeVar name _ => ret (conv_esc name)
     | TEnum _ | TBoundary _ _ _ _ _ => fail ValueError
+    end.
+
+  (* the rendered text never depends on the generator state (only markers, imports and failures do): this is the
+     state-free rendering that type_string computes (Proofs/BackProofs.v: type_string_is_tstr) *)
+  Fixpoint tstr (t : ty) : str :=
+    match t with
+    | TNamed name _ => match lookup_pair name t_builtin_type_names with Some r => r | None => name end
+    | TFinal t' => tstr t'
+    | TCallable ps r =>
+      let params := numbered_names "param_" (map tstr ps) in
+      match r with
+      | TTuple rs => K"(" ++ join (K", ") params ++ K") -> (" ++ join (K", ") (numbered_names "result_" (map tstr rs)) ++ K")"
+      | TNamed rn _ =>
+        if str_eqb rn (K"None") then K"(" ++ join (K", ") params ++ K") -> ()"
+        else K"(" ++ join (K", ") params ++ K") -> " ++ conv (K"result_1") ++ K": " ++ tstr r
+      | _ => K"(" ++ join (K", ") params ++ K") -> " ++ conv (K"result_1") ++ K": " ++ tstr r
+      end
+    | TSet ts => seq_str (K"Set") (map tstr ts)
+    | TList ts => seq_str (K"List") (map tstr ts)
+    | TNamedSeq name _ ts => seq_str name (map tstr ts)
+    | TUnknown => K"unknown"
+    | TUnion ts =>
+      let lits := filter is_literal ts in
+      let others := filter (fun x => negb (is_literal x)) ts in
+      let has_named := existsb counts_as_named ts in
+      let merged := 2 <=? List.length lits in
+      let all_literals := flat_map (fun x => match x with TLiteral ls => ls | _ => [] end) lits in
+      let n_members := if merged then S (List.length others) else List.length ts in
+      if Nat.eqb n_members 2 && nonempty lits &&
+         (if merged then match others with [o] => is_named o | _ => false end
+          else match ts with [x; y] => is_named x || is_named y | _ => false end)
+      then
+        let ls := if merged then all_literals
+                  else match ts with
+                       | [TLiteral l1; _] => l1
+                       | [_; TLiteral l2] => l2
+                       | _ => []
+                       end in
+        K"literal<" ++ join (K", ") (map render_lit (ls ++ [LNone])) ++ K">"
+      else
+        finish_union has_named
+          (if merged then
+             List.concat (map (fun x => if is_literal x then [] else [tstr x]) ts)
+             ++ [K"literal<" ++ join (K", ") (map render_lit all_literals) ++ K">"]
+           else map tstr ts)
+    | TTuple ts => K"Tuple<" ++ join (K", ") (map tstr ts) ++ K">"
+    | TDict k v => K"Map<" ++ tstr k ++ K", " ++ tstr v ++ K">"
+    | TLiteral ls => K"literal<" ++ join (K", ") (map render_lit ls) ++ K">"
+    | TTypeVar name _ => conv_esc name
+    | TEnum _ | TBoundary _ _ _ _ _ => []
     end.
 
   Definition type_string_opt (t : option ty) : M str :=
@@ -688,6 +744,20 @@ Section Gen.
   Definition variance_prefix (v : variance) : str :=
     match v with INVARIANT => [] | COVARIANT => K"out " | CONTRAVARIANT => K"in " end.
 
+  (* the superclass loop of _create_class_string: public superclasses are imported and named in the `sub` clause,
+     private ones have their members inlined (by `inline`) *)
+  Definition super_name (sc : str) : str := last (split_ch dot sc) [].
+  Fixpoint super_loop (inline : str -> M str) (sups : list str) (names : list str) (text : str) : M (list str * str) :=
+    match sups with
+    | [] => ret (names, text)
+    | sc :: rest =>
+      if negb (is_internal (super_name sc)) then
+        add_to_imports sc ;; super_loop inline rest (names ++ [super_name sc]) text
+      else
+        mdo x <- inline sc;
+        super_loop inline rest names (text ++ x)
+    end.
+
   (* _create_class_string / _create_internal_class_string, mutually recursive through the class table: fuel *)
   Fixpoint class_string (fuel : nat) (c : cls) (indent : str) (in_reexport_module : bool) {struct fuel} : M str :=
     match fuel with O => fail OutOfFuel | S fu =>
@@ -738,17 +808,7 @@ Section Gen.
       let '(method_text, method_names) := mt in
       let already := set_union attr_names method_names in
       mdo sup <- (if nonempty (c_supers c) && negb (is_abstract c) then
-                    (fix go (sups : list str) (names : list str) (text : str) : M (list str * str) :=
-                       match sups with
-                       | [] => ret (names, text)
-                       | sc :: rest =>
-                         let sname := last (split_ch dot sc) [] in
-                         if negb (is_internal sname) then
-                           add_to_imports sc ;; go rest (names ++ [sname]) text
-                         else
-                           mdo x <- internal_class_string fu sc inner already;
-                           go rest names (text ++ x)
-                       end) (c_supers c) [] []
+                    super_loop (fun sc => internal_class_string fu sc inner already) (c_supers c) [] []
                   else ret ([], []));
       let '(super_names, super_methods_text) := sup in
       let superclass_info := match super_names with [] => [] | _ => K" sub " ++ join (K", ") super_names end in
